@@ -140,7 +140,7 @@ def drive_ws(r, P):
     listed = listed_classes(pid, P.CLASS_BITS)
 
     def explore(cases, name):
-        meta = evaluate(r, name, P.MODULE, P.VERDICT, cases, stdlib, h1)
+        meta = evaluate(r, name, P.MODULE, P.VERDICT, cases, stdlib, h1, getattr(P, "to_coq", None))
         out = []
         for c in cases:
             m = meta[c["id"]]
@@ -234,7 +234,7 @@ def shrink(P, c, m, prop, stdlib, h1, listed):
     import copy
 
     def failing(case):
-        meta = evaluate(None, P.PID + "_shrink", P.MODULE, P.VERDICT, [case], stdlib, h1)
+        meta = evaluate(None, P.PID + "_shrink", P.MODULE, P.VERDICT, [case], stdlib, h1, getattr(P, "to_coq", None))
         mm = meta[case["id"]]
         if mm.get("hang"):
             return mm, ["hang"]
